@@ -548,6 +548,28 @@ func cmdCheck(args []string) {
 	}
 	sort.Strings(undecidedNew)
 	sort.Strings(retired)
+	// code that is unreachable in the model (e.g. behind a call whose effect is not modelled): what is claimed about
+	// it is proved vacuously. Reported, so that a contract that "verifies" for this reason is seen.
+	{
+		deadFns := map[string]string{}
+		var names []string
+		for name, ob := range byName {
+			if ob.Kind == "cover" && ob.Solver == "dead-code" {
+				if _, seen := deadFns[ob.Fn]; !seen {
+					names = append(names, ob.Fn)
+				}
+				deadFns[ob.Fn] = name
+			}
+		}
+		sort.Strings(names)
+		for _, fn := range names {
+			msg := "part of " + fn + " is unreachable in the model (e.g. " + deadFns[fn] + "): obligations about that part hold vacuously"
+			notes = append(notes, msg)
+			if *update || *verbose {
+				fmt.Println("NOTE dead-code-in-model: " + msg)
+			}
+		}
+	}
 
 	// bounded stand-ins
 	var standins []map[string]interface{}
